@@ -132,6 +132,60 @@ pub fn one_header(rep: &mut Rep, c: &mut Conn, size: u32, opcode: u16, via_write
     }
 }
 
+/// Two connections decode one header each through the two-step path, the steps interleaved on one thread.
+pub fn interleaved_pair(rep: &mut Rep, a: &mut Conn, b: &mut Conn, ha: (u32, u16), hb: (u32, u16)) -> bool {
+    let replay = format!("pair {} {}", hex(&a.k), hex(&b.k));
+    let mut wa = layout(ha.0, ha.1);
+    let mut wb = layout(hb.0, hb.1);
+    // the servers send (checked against the model elsewhere; here the model produces the wire bytes)
+    let ea = a.server.encrypt_server_header(ha.0, ha.1).to_vec();
+    let eb = b.server.encrypt_server_header(hb.0, hb.1).to_vec();
+    a.model.xor(&mut wa);
+    b.model.xor(&mut wb);
+    a.sent += 1;
+    b.sent += 1;
+    if ea != wa || eb != wb {
+        rep.violation("c10:wire_layout:interleaved", "server header bytes differ from the model on one of two interleaved connections".into(), replay);
+        return false;
+    }
+    let r = guard(|| {
+        let ra = a.client.attempt_decrypt_server_header([wa[0], wa[1], wa[2], wa[3]]);
+        let rb = b.client.attempt_decrypt_server_header([wb[0], wb[1], wb[2], wb[3]]);
+        let fa = match ra {
+            WrathServerAttempt::Header(h) => (h.size, h.opcode),
+            WrathServerAttempt::AdditionalByteRequired => {
+                let h = a.client.decrypt_large_server_header(*wa.get(4).unwrap_or(&0));
+                (h.size, h.opcode)
+            }
+        };
+        let fb = match rb {
+            WrathServerAttempt::Header(h) => (h.size, h.opcode),
+            WrathServerAttempt::AdditionalByteRequired => {
+                let h = b.client.decrypt_large_server_header(*wb.get(4).unwrap_or(&0));
+                (h.size, h.opcode)
+            }
+        };
+        (fa, fb)
+    });
+    match r {
+        Err(e) => {
+            rep.violation("c10:panic:decode:interleaved", e, replay);
+            false
+        }
+        Ok((fa, fb)) => {
+            if fa != ha || fb != hb {
+                rep.violation(
+                    "c10:decoded_value:interleaved_connections",
+                    format!("two connections on one thread, steps interleaved: A decoded {:x?} (sent {:x?}), B decoded {:x?} (sent {:x?})", fa, ha, fb, hb),
+                    replay,
+                );
+                return false;
+            }
+            true
+        }
+    }
+}
+
 const BOUNDARY: [u32; 11] = [0, 1, 0x7FFE, 0x7FFF, 0x8000, 0x8001, 0xFFFF, 0x10000, 0x3FFFFF, 0x400000, 0x7FFFFF];
 const OPS: [u16; 7] = [0, 1, 0xFF, 0x100, 0x7FFF, 0x8000, 0xFFFF];
 
@@ -234,6 +288,26 @@ encode route (slice/writer) and decode path (read-based / attempt+byte) vary per
             }
             rep.distinct_extra += BOUNDARY.len() as u64;
             op += op_stride;
+        }
+        // 2b. two connections on this thread whose two-step decodes interleave (attempt A, attempt B, fifth byte A, fifth byte B),
+        //     the second one keyed with a permutation of the first key
+        if tier != "miri" {
+            let ka: [u8; 40] = rng.arr();
+            let variants = crate::streams::permuted_keys(&ka, &mut rng);
+            for kb in variants.into_iter().take(3) {
+                let mut ca = Conn::new(ka);
+                let mut cb = Conn::new(kb);
+                for _ in 0..24 {
+                    let sa = 0x8000 + rng.below(0x7F8000) as u32;
+                    let sb = if rng.chance(1, 3) { rng.below(0x8000) as u32 } else { 0x8000 + rng.below(0x7F8000) as u32 };
+                    let (oa, ob) = (rng.next() as u16, rng.next() as u16);
+                    if !interleaved_pair(&mut rep, &mut ca, &mut cb, (sa, oa), (sb, ob)) {
+                        break;
+                    }
+                    rep.ev(2);
+                }
+                rep.count("interleaved_connection_pairs", 1);
+            }
         }
         // 3. random headers, fresh connections with sequences of 1..200 headers
         let nrand: u64 = match tier {
